@@ -1541,8 +1541,14 @@ Lemma decode_loop_inv hd : forall fuel cr d bs, wf d ->
   wf (r_dec R) /\ d_last_max (r_dec R) = d_last_max d /\ d_queued (r_dec R) = d_queued d /\
   (tmax (r_dec R) = tmax d \/ tmax (r_dec R) <= d_last_max d) /\ r_verdict R <> VPanic.
 Proof.
+  assert (Triv : forall (d : decoder) v l, wf d -> v <> VPanic ->
+            let R := mk_dresult [] v d l QNone in
+            wf (r_dec R) /\ d_last_max (r_dec R) = d_last_max d /\ d_queued (r_dec R) = d_queued d /\
+            (tmax (r_dec R) = tmax d \/ tmax (r_dec R) <= d_last_max d) /\ r_verdict R <> VPanic).
+  { intros d v l Hwf Hv. cbn [r_dec r_verdict]. split; [exact Hwf|]. split; [reflexivity|].
+    split; [reflexivity|]. split; [left; reflexivity|exact Hv]. }
   induction fuel as [|fuel IH]; intros cr d bs Hwf; destruct bs as [|ty t]; cbn [decode_loop];
-    try (cbn [r_dec r_verdict]; repeat split; auto; discriminate).
+    try (apply Triv; [exact Hwf|discriminate]).
   destruct (decode_step hd cr d ty (ty :: t)) as [f d' rest|d' rest|e l q|] eqn:E.
   - destruct (step_field_inv _ _ _ _ _ _ _ _ Hwf E) as (Hwf' & Hm & Hlm & Hq & _).
     destruct (IH false d' rest Hwf') as (A & B & C & D & F).
@@ -1551,7 +1557,8 @@ Proof.
     destruct (IH cr d' rest Hwf') as (A & B & C & D & F).
     split; [exact A|]. split; [congruence|]. split; [congruence|]. split; [|exact F].
     right. destruct D as [D|D]; lia.
-  - cbn [r_dec r_verdict]. repeat split; auto; discriminate.
+  - cbn [r_dec r_verdict]. split; [exact Hwf|]. split; [reflexivity|]. split; [reflexivity|].
+    split; [left; reflexivity|discriminate].
   - exfalso. exact (step_no_panic hd cr d ty (ty :: t) Hwf E).
 Qed.
 
@@ -1676,3 +1683,536 @@ Qed.
 Example hpack_table_within_current_limit_example : 
   wf (decoder_new 4096) /\ tmax (decoder_new 4096) <= last_limit_of (decoder_new 4096).
 Proof. split; [apply wf_table_new|vm_compute; discriminate]. Qed.
+
+(* ===================================================================================== *)
+(* Part E: feeding a block in fragments                                                   *)
+(* No hypothesis on the decoder state or on the octets in this part.                      *)
+
+Definition qnone (q : quirk) : bool := match q with QNone => true | _ => false end.
+
+(* ---- extending the input does not change what was decoded from a complete prefix ---- *)
+Definition stable_rd {A} (r r' : rd A) (x : list N) : Prop :=
+  match r with
+  | ROk v rest => r' = ROk v (rest ++ x)
+  | RErr e => if is_need_more e then True else r' = RErr e
+  end.
+
+Ltac stab := idtac.
+Lemma decode_int_loop_stable : forall bs k s r x,
+  stable_rd (decode_int_loop k s r bs) (decode_int_loop k s r (bs ++ x)) x.
+Proof.
+  induction bs as [|b t IH]; intros k s r x; cbn [decode_int_loop app].
+  - exact I.
+  - destruct (N.land b VARINT_FLAG =? 0); [stab|].
+    destruct (k + 1 =? MAX_BYTES); [stab|]. apply IH.
+Qed.
+
+Lemma decode_int_stable p bs x : stable_rd (decode_int p bs) (decode_int p (bs ++ x)) x.
+Proof.
+  unfold decode_int. destruct ((p <? 1) || (8 <? p)); [stab|].
+  destruct bs as [|b t]; cbn [app]; [exact I|].
+  destruct (N.land b (int_mask p) <? int_mask p); [stab|]. apply decode_int_loop_stable.
+Qed.
+
+Lemma split_at_stable n l a b x : split_at n l = Some (a, b) -> split_at n (l ++ x) = Some (a, b ++ x).
+Proof.
+  intros H. apply split_at_spec in H. destruct H as [-> Hl]. apply split_at_spec.
+  split; [rewrite app_assoc; stab|exact Hl].
+Qed.
+
+Lemma try_decode_string_stable hd bs x :
+  stable_rd (try_decode_string hd bs) (try_decode_string hd (bs ++ x)) x.
+Proof.
+  unfold try_decode_string. destruct bs as [|b t]; [exact I|]. cbn [app].
+  change (b :: t ++ x) with ((b :: t) ++ x).
+  pose proof (decode_int_stable 7 (b :: t) x) as Hi.
+  destruct (decode_int 7 (b :: t)) as [len r1|e]; cbn [stable_rd] in Hi.
+  - rewrite Hi. cbv iota.
+    change (split_n len r1) with (split_at len r1).
+    change (split_n len (r1 ++ x)) with (split_at len (r1 ++ x)).
+    destruct (split_at len r1) as [[raw r2]|] eqn:E2; [|exact I].
+    rewrite (split_at_stable _ _ _ _ x E2).
+    destruct (N.land b 128 =? 128); [|stab].
+    destruct (hd raw); stab.
+  - cbn [stable_rd]. destruct (is_need_more e); [exact I|]. rewrite Hi. stab.
+Qed.
+
+Lemma header_new_err_hard c r v e : header_new (c :: r) v = HErr e -> is_need_more e = false.
+Proof.
+  unfold header_new.
+  repeat match goal with
+         | |- (if ?c then _ else _) = _ -> _ => destruct c
+         end;
+    unfold guard;
+    repeat match goal with
+           | |- (if ?c then _ else _) = _ -> _ => destruct c
+           end; intros H; inversion H; reflexivity.
+Qed.
+
+Lemma into_entry_err_hard n v e : into_entry n v = HErr e -> is_need_more e = false.
+Proof.
+  unfold into_entry, guard. destruct (kind_of n);
+    match goal with |- (if ?c then _ else _) = _ -> _ => destruct c end;
+    intros H; inversion H; reflexivity.
+Qed.
+
+Definition stable_l (r r' : lres) (bs x : list N) : Prop :=
+  match r with
+  | LOk f rest => r' = LOk f (rest ++ x)
+  | LErr e l q => if is_need_more e && qnone q then l = bs else r' = LErr e (l ++ x) q
+  | LPanic => r' = LPanic
+  end.
+
+Lemma decode_literal_stable hd t bs index x :
+  stable_l (decode_literal hd t bs index) (decode_literal hd t (bs ++ x) index) bs x.
+Proof.
+  unfold decode_literal.
+  pose proof (decode_int_stable (if index then 6 else 4) bs x) as Hi.
+  destruct (decode_int (if index then 6 else 4) bs) as [idx r0|e]; cbn [stable_rd] in Hi.
+  2:{ cbn [stable_l qnone]. rewrite andb_true_r. destruct (is_need_more e); [stab|].
+      rewrite Hi. stab. }
+  rewrite Hi. destruct (idx =? 0).
+  - pose proof (try_decode_string_stable hd r0 x) as H1.
+    destruct (try_decode_string hd r0) as [[nh name] r1|e]; cbn [stable_rd] in H1.
+    2:{ cbn [stable_l qnone]. rewrite andb_true_r. destruct (is_need_more e); [stab|].
+        rewrite H1. stab. }
+    rewrite H1.
+    pose proof (try_decode_string_stable hd r1 x) as H2.
+    destruct (try_decode_string hd r1) as [[vh value] r2|e]; cbn [stable_rd] in H2.
+    2:{ cbn [stable_l qnone]. rewrite andb_true_r. destruct (is_need_more e); [stab|].
+        rewrite H2. stab. }
+    rewrite H2.
+    destruct (header_new name value) as [f|e] eqn:E3; [stab|].
+    cbn [stable_l].
+    assert (Hl : (if vh then if nh then bs ++ x else r1 ++ x else r2 ++ x) =
+                 (if vh then if nh then bs else r1 else r2) ++ x) by (destruct vh, nh; stab).
+    rewrite Hl. destruct name as [|c r].
+    + cbn [qnone]. rewrite andb_false_r. stab.
+    + rewrite (header_new_err_hard _ _ _ _ E3). stab.
+  - destruct (table_get t idx) as [e|e|]; [|stab|stab].
+    pose proof (try_decode_string_stable hd r0 x) as H1.
+    destruct (try_decode_string hd r0) as [[vh value] r1|err]; cbn [stable_rd] in H1.
+    2:{ cbn [stable_l qnone]. rewrite andb_true_r. destruct (is_need_more err); [stab|].
+        rewrite H1. stab. }
+    rewrite H1.
+    destruct (into_entry (fst e) value) as [f|err] eqn:E3; [stab|].
+    cbn [stable_l]. rewrite (into_entry_err_hard _ _ _ E3). cbn [andb].
+    destruct vh; stab.
+Qed.
+
+Definition stable_s (r r' : step_res) (bs x : list N) : Prop :=
+  match r with
+  | SField f d' rest => r' = SField f d' (rest ++ x)
+  | SUpdate d' rest => r' = SUpdate d' (rest ++ x)
+  | SErr e l q => if is_need_more e && qnone q then l = bs else r' = SErr e (l ++ x) q
+  | SPanic => r' = SPanic
+  end.
+
+Lemma decode_step_stable hd cr d ty bs x :
+  stable_s (decode_step hd cr d ty bs) (decode_step hd cr d ty (bs ++ x)) bs x.
+Proof.
+  unfold decode_step.
+  destruct (repr_load ty) as [[| | | |]|e]; [| | | | |stab].
+  - pose proof (decode_int_stable 7 bs x) as Hi.
+    destruct (decode_int 7 bs) as [idx r|e]; cbn [stable_rd] in Hi.
+    + rewrite Hi. destruct (table_get (d_table d) idx); stab.
+    + cbn [stable_s qnone]. rewrite andb_true_r. destruct (is_need_more e); [stab|].
+      rewrite Hi. stab.
+  - pose proof (decode_literal_stable hd (d_table d) bs true x) as Hl.
+    destruct (decode_literal hd (d_table d) bs true) as [f r|e l q|]; cbn [stable_l] in Hl.
+    + rewrite Hl. stab.
+    + cbn [stable_s]. destruct (is_need_more e && qnone q); [exact Hl|]. rewrite Hl. stab.
+    + rewrite Hl. stab.
+  - pose proof (decode_literal_stable hd (d_table d) bs false x) as Hl.
+    destruct (decode_literal hd (d_table d) bs false) as [f r|e l q|]; cbn [stable_l] in Hl.
+    + rewrite Hl. stab.
+    + cbn [stable_s]. destruct (is_need_more e && qnone q); [exact Hl|]. rewrite Hl. stab.
+    + rewrite Hl. stab.
+  - pose proof (decode_literal_stable hd (d_table d) bs false x) as Hl.
+    destruct (decode_literal hd (d_table d) bs false) as [f r|e l q|]; cbn [stable_l] in Hl.
+    + rewrite Hl. stab.
+    + cbn [stable_s]. destruct (is_need_more e && qnone q); [exact Hl|]. rewrite Hl. stab.
+    + rewrite Hl. stab.
+  - destruct (negb cr); [stab|].
+    pose proof (decode_int_stable 5 bs x) as Hi.
+    destruct (decode_int 5 bs) as [n r|e]; cbn [stable_rd] in Hi.
+    + rewrite Hi. destruct (d_last_max d <? n); [stab|].
+      destruct (table_set_max_size (d_table d) n); stab.
+    + cbn [stable_s qnone]. rewrite andb_true_r. destruct (is_need_more e); [stab|].
+      rewrite Hi. stab.
+Qed.
+
+(* ---- progress without hypotheses, fuel irrelevance ---- *)
+Lemma step_suffix hd cr d ty bs :
+  match decode_step hd cr d ty bs with
+  | SField _ _ rest | SUpdate _ rest => exists pre, bs = pre ++ rest /\ pre <> []
+  | _ => True
+  end.
+Proof.
+  unfold decode_step.
+  destruct (repr_load ty) as [[| | | |]|e]; [| | | | |exact I].
+  - destruct (decode_int 7 bs) as [idx r|e] eqn:E0; [|exact I].
+    destruct (table_get (d_table d) idx); try exact I. apply decode_int_suffix in E0. exact E0.
+  - destruct (decode_literal hd (d_table d) bs true) as [f r|e l q|] eqn:E0; try exact I.
+    apply decode_literal_inv in E0. apply E0.
+  - destruct (decode_literal hd (d_table d) bs false) as [f r|e l q|] eqn:E0; try exact I.
+    apply decode_literal_inv in E0. apply E0.
+  - destruct (decode_literal hd (d_table d) bs false) as [f r|e l q|] eqn:E0; try exact I.
+    apply decode_literal_inv in E0. apply E0.
+  - destruct (negb cr); [exact I|].
+    destruct (decode_int 5 bs) as [n r|e] eqn:E0; [|exact I].
+    destruct (d_last_max d <? n); [exact I|].
+    destruct (table_set_max_size (d_table d) n); [|exact I]. apply decode_int_suffix in E0. exact E0.
+Qed.
+
+Lemma suffix_shorter {A} (pre rest : list A) : pre <> [] -> (length rest < length (pre ++ rest))%nat.
+Proof. intros H. rewrite app_length. destruct pre; [contradiction|cbn [length]; lia]. Qed.
+
+Lemma loop_fuel hd : forall f1 f2 cr d bs, (length bs < f1)%nat -> (length bs < f2)%nat ->
+  decode_loop hd f1 cr d bs = decode_loop hd f2 cr d bs.
+Proof.
+  induction f1 as [|f1 IH]; intros f2 cr d bs H1 H2; [lia|].
+  destruct f2 as [|f2]; [lia|].
+  destruct bs as [|ty t]; cbn [decode_loop]; [reflexivity|].
+  pose proof (step_suffix hd cr d ty (ty :: t)) as Hs.
+  destruct (decode_step hd cr d ty (ty :: t)) as [f d' rest|d' rest|e l q|]; try reflexivity.
+  - destruct Hs as (pre & E & Hne). pose proof (suffix_shorter pre rest Hne) as Hl.
+    rewrite <- E in Hl. cbn [length] in *. rewrite (IH f2 false d' rest) by lia. reflexivity.
+  - destruct Hs as (pre & E & Hne). pose proof (suffix_shorter pre rest Hne) as Hl.
+    rewrite <- E in Hl. cbn [length] in *. apply IH; lia.
+Qed.
+
+(* the loop with exactly the fuel that [decode] gives it *)
+Definition decode_run (hd : list N -> option (list N)) (cr : bool) (d : decoder) (bs : list N)
+  : dresult := decode_loop hd (S (length bs)) cr d bs.
+
+Lemma decode_is_run hd d bs : decode hd d bs = decode_run hd true (take_queued d) bs.
+Proof. reflexivity. Qed.
+
+(* MAIN THEOREM 0 (totality): the fuel given by [decode] is never exhausted *)
+Lemma decode_loop_no_fuel hd : forall fuel cr d bs, (length bs < fuel)%nat ->
+  r_verdict (decode_loop hd fuel cr d bs) <> VFuel.
+Proof.
+  induction fuel as [|fuel IH]; intros cr d bs Hl; [lia|].
+  destruct bs as [|ty t]; cbn [decode_loop]; [discriminate|].
+  pose proof (step_suffix hd cr d ty (ty :: t)) as Hs.
+  destruct (decode_step hd cr d ty (ty :: t)) as [f d' rest|d' rest|e l q|]; try discriminate.
+  - destruct Hs as (pre & E & Hne). pose proof (suffix_shorter pre rest Hne) as Hl'.
+    rewrite <- E in Hl'. cbn [length] in *. cbn [prepend r_verdict]. apply IH. lia.
+  - destruct Hs as (pre & E & Hne). pose proof (suffix_shorter pre rest Hne) as Hl'.
+    rewrite <- E in Hl'. cbn [length] in *. apply IH. lia.
+Qed.
+
+Theorem decode_no_fuel hd d bs : r_verdict (decode hd d bs) <> VFuel.
+Proof. unfold decode. apply decode_loop_no_fuel. lia. Qed.
+
+Lemma run_nil hd cr d : decode_run hd cr d [] = mk_dresult [] VOk d [] QNone.
+Proof. reflexivity. Qed.
+
+Lemma run_cons hd cr d ty t :
+  decode_run hd cr d (ty :: t) =
+  match decode_step hd cr d ty (ty :: t) with
+  | SField f d' rest => prepend [f] (decode_run hd false d' rest)
+  | SUpdate d' rest => decode_run hd cr d' rest
+  | SErr e l q => mk_dresult [] (VErr e) d l q
+  | SPanic => mk_dresult [] VPanic d (ty :: t) QNone
+  end.
+Proof.
+  unfold decode_run. cbn [decode_loop length].
+  pose proof (step_suffix hd cr d ty (ty :: t)) as Hs.
+  destruct (decode_step hd cr d ty (ty :: t)) as [f d' rest|d' rest|e l q|]; try reflexivity.
+  - destruct Hs as (pre & E & Hne). pose proof (suffix_shorter pre rest Hne) as Hl.
+    rewrite <- E in Hl. cbn [length] in Hl.
+    rewrite (loop_fuel hd (S (length t)) (S (length rest)) false d' rest) by lia. reflexivity.
+  - destruct Hs as (pre & E & Hne). pose proof (suffix_shorter pre rest Hne) as Hl.
+    rewrite <- E in Hl. cbn [length] in Hl.
+    apply loop_fuel; lia.
+Qed.
+
+(* ---- a run on b1 ++ x in terms of the run on b1 ---- *)
+Definition cr_after (cr : bool) (fs : list field) : bool :=
+  match fs with [] => cr | _ :: _ => false end.
+
+(* the caller continues after Ok, and after a NeedMore that stems from missing input *)
+Definition resumable (R : dresult) : bool :=
+  match r_verdict R with
+  | VOk => true
+  | VErr e => is_need_more e && qnone (r_quirk R)
+  | _ => false
+  end.
+
+Definition set_left (R : dresult) (l : list N) : dresult :=
+  mk_dresult (r_fields R) (r_verdict R) (r_dec R) l (r_quirk R).
+
+Lemma prepend_nil r : prepend [] r = r.
+Proof. destruct r; reflexivity. Qed.
+
+Lemma prepend_prepend a b r : prepend a (prepend b r) = prepend (a ++ b) r.
+Proof. unfold prepend. cbn [r_fields r_verdict r_dec r_left r_quirk]. rewrite app_assoc. reflexivity. Qed.
+
+Lemma run_app hd : forall n b1, (length b1 <= n)%nat -> forall cr d x,
+  decode_run hd cr d (b1 ++ x) =
+  let R1 := decode_run hd cr d b1 in
+  if resumable R1
+  then prepend (r_fields R1) (decode_run hd (cr_after cr (r_fields R1)) (r_dec R1) (r_left R1 ++ x))
+  else set_left R1 (r_left R1 ++ x).
+Proof.
+  induction n as [|n IH]; intros b1 Hl cr d x; cbv zeta.
+  - destruct b1; [|cbn [length] in Hl; lia]. rewrite run_nil. cbn [resumable r_verdict r_fields r_dec r_left cr_after app].
+    rewrite prepend_nil. reflexivity.
+  - destruct b1 as [|ty t].
+    + rewrite run_nil. cbn [resumable r_verdict r_fields r_dec r_left cr_after app].
+      rewrite prepend_nil. reflexivity.
+    + cbn [app]. rewrite !run_cons. change (ty :: t ++ x) with ((ty :: t) ++ x).
+      pose proof (decode_step_stable hd cr d ty (ty :: t) x) as Hst.
+      pose proof (step_suffix hd cr d ty (ty :: t)) as Hs.
+      destruct (decode_step hd cr d ty (ty :: t)) as [f d' rest|d' rest|e l q|]; cbn [stable_s] in Hst.
+      * rewrite Hst. destruct Hs as (pre & E & Hne). pose proof (suffix_shorter pre rest Hne) as Hlr.
+        rewrite <- E in Hlr. cbn [length] in Hl, Hlr.
+        rewrite (IH rest ltac:(lia) false d' x). cbv zeta.
+        set (R1 := decode_run hd false d' rest).
+        assert (Hres : resumable (prepend [f] R1) = resumable R1) by reflexivity.
+        rewrite Hres. destruct (resumable R1).
+        -- rewrite prepend_prepend. cbn [prepend r_fields r_dec r_left app cr_after].
+           assert (Hc : cr_after false (r_fields R1) = false) by (destruct (r_fields R1); reflexivity).
+           rewrite Hc. reflexivity.
+        -- reflexivity.
+      * rewrite Hst. destruct Hs as (pre & E & Hne). pose proof (suffix_shorter pre rest Hne) as Hlr.
+        rewrite <- E in Hlr. cbn [length] in Hl, Hlr.
+        apply (IH rest ltac:(lia) cr d' x).
+      * cbn [resumable r_verdict r_quirk r_fields r_dec r_left cr_after].
+        destruct (is_need_more e && qnone q).
+        -- subst l. rewrite prepend_nil. rewrite run_cons. reflexivity.
+        -- rewrite Hst. reflexivity.
+      * rewrite Hst. reflexivity.
+Qed.
+
+(* ---- can_resize only matters when a size update is met after a header ---- *)
+Lemma step_false_no_update hd d ty bs d' rest : decode_step hd false d ty bs <> SUpdate d' rest.
+Proof.
+  unfold decode_step. destruct (repr_load ty) as [[| | | |]|e]; try discriminate.
+  - destruct (decode_int 7 bs); [|discriminate]. destruct (table_get (d_table d) v); discriminate.
+  - destruct (decode_literal hd (d_table d) bs true); discriminate.
+  - destruct (decode_literal hd (d_table d) bs false); discriminate.
+  - destruct (decode_literal hd (d_table d) bs false); discriminate.
+Qed.
+
+Lemma run_cr hd d bs :
+  r_quirk (decode_run hd false d bs) <> QMisplacedUpdate ->
+  decode_run hd true d bs = decode_run hd false d bs.
+Proof.
+  destruct bs as [|ty t]; [reflexivity|]. rewrite !run_cons.
+  pose proof (step_false_no_update hd d ty (ty :: t)) as Hnu.
+  unfold decode_step in *.
+  destruct (repr_load ty) as [[| | | |]|e]; try reflexivity.
+  - destruct (decode_int 7 (ty :: t)); [|reflexivity].
+    destruct (table_get (d_table d) v); reflexivity.
+  - destruct (decode_literal hd (d_table d) (ty :: t) true); reflexivity.
+  - destruct (decode_literal hd (d_table d) (ty :: t) false); reflexivity.
+  - destruct (decode_literal hd (d_table d) (ty :: t) false); reflexivity.
+  - cbn [negb r_quirk]. intros H. contradiction H. reflexivity.
+Qed.
+
+(* the queued update is consumed by the first call *)
+Lemma run_queued hd : forall n bs, (length bs <= n)%nat -> forall cr d,
+  d_queued (r_dec (decode_run hd cr d bs)) = d_queued d.
+Proof.
+  induction n as [|n IH]; intros bs Hl cr d.
+  - destruct bs; [reflexivity|cbn [length] in Hl; lia].
+  - destruct bs as [|ty t]; [reflexivity|]. rewrite run_cons.
+    pose proof (step_suffix hd cr d ty (ty :: t)) as Hs.
+    assert (Hq : match decode_step hd cr d ty (ty :: t) with
+                 | SField _ d' _ | SUpdate d' _ => d_queued d' = d_queued d | _ => True end).
+    { unfold decode_step. destruct (repr_load ty) as [[| | | |]|e]; try exact I.
+      - destruct (decode_int 7 (ty :: t)); [|exact I]. destruct (table_get (d_table d) v); try exact I. reflexivity.
+      - destruct (decode_literal hd (d_table d) (ty :: t) true); try exact I. reflexivity.
+      - destruct (decode_literal hd (d_table d) (ty :: t) false); try exact I. reflexivity.
+      - destruct (decode_literal hd (d_table d) (ty :: t) false); try exact I. reflexivity.
+      - destruct (negb cr); [exact I|]. destruct (decode_int 5 (ty :: t)); [|exact I].
+        destruct (d_last_max d <? v); [exact I|].
+        destruct (table_set_max_size (d_table d) v); [reflexivity|exact I]. }
+    destruct (decode_step hd cr d ty (ty :: t)) as [f d' rest|d' rest|e l q|]; try reflexivity.
+    + destruct Hs as (pre & E & Hne). pose proof (suffix_shorter pre rest Hne) as Hlr.
+      rewrite <- E in Hlr. cbn [length] in Hl, Hlr.
+      cbn [prepend r_dec]. rewrite (IH rest ltac:(lia) false d'). exact Hq.
+    + destruct Hs as (pre & E & Hne). pose proof (suffix_shorter pre rest Hne) as Hlr.
+      rewrite <- E in Hlr. cbn [length] in Hl, Hlr.
+      rewrite (IH rest ltac:(lia) cr d'). exact Hq.
+Qed.
+
+Lemma take_queued_queued d : d_queued (take_queued d) = None.
+Proof. unfold take_queued. destruct (d_queued d) eqn:E; [reflexivity|exact E]. Qed.
+
+Lemma decode_queued hd d bs : d_queued (r_dec (decode hd d bs)) = None.
+Proof.
+  rewrite decode_is_run. rewrite (run_queued hd (length bs) bs (le_n _)). apply take_queued_queued.
+Qed.
+
+(* ---- the theorem ---- *)
+Definition same_result (A B : dresult) : Prop :=
+  r_fields A = r_fields B /\ r_verdict A = r_verdict B /\ r_dec A = r_dec B.
+
+Lemma same_result_refl A : same_result A A.
+Proof. unfold same_result. auto. Qed.
+
+Lemma same_result_prepend fs A B : same_result A B -> same_result (prepend fs A) (prepend fs B).
+Proof. unfold same_result, prepend. cbn [r_fields r_verdict r_dec]. intros (-> & -> & ->). auto. Qed.
+
+Lemma chunks_from_whole hd : forall frags d carry, frags <> [] ->
+  r_quirk (decode hd d (carry ++ concat frags)) = QNone ->
+  same_result (decode_chunks_from hd d carry frags) (decode hd d (carry ++ concat frags)).
+Proof.
+  induction frags as [|f more IH]; intros d carry Hne Hq; [contradiction|].
+  cbn [decode_chunks_from]. destruct more as [|g more'].
+  - cbn [concat]. rewrite app_nil_r. apply same_result_refl.
+  - set (C := concat (g :: more')). change (concat (f :: g :: more')) with (f ++ C) in *.
+    rewrite app_assoc in *. rewrite (decode_is_run hd d ((carry ++ f) ++ C)) in *.
+    rewrite (run_app hd (length (carry ++ f)) (carry ++ f) (le_n _) true (take_queued d) C) in *.
+    cbv zeta in *. rewrite <- (decode_is_run hd d (carry ++ f)) in *.
+    set (R1 := decode hd d (carry ++ f)) in *.
+    destruct (resumable R1) eqn:Eres.
+    + (* the caller continues *)
+      assert (Hcont : match r_verdict R1 with VOk => True | VErr (NeedMore _) => True | _ => False end).
+      { unfold resumable in Eres. destruct (r_verdict R1) as [|e| |]; try discriminate; [exact I|].
+        destruct e; try discriminate. exact I. }
+      cbn [prepend r_quirk] in Hq.
+      set (D := r_dec R1) in *. set (T := r_left R1 ++ C) in *.
+      assert (HD : take_queued D = D).
+      { apply take_queued_none. subst D R1. apply decode_queued. }
+      assert (Hrun : decode_run hd true D T = decode_run hd (cr_after true (r_fields R1)) D T).
+      { destruct (cr_after true (r_fields R1)); [reflexivity|]. apply run_cr. rewrite Hq. discriminate. }
+      assert (Hrec : same_result (decode_chunks_from hd D (r_left R1) (g :: more'))
+                                 (decode_run hd (cr_after true (r_fields R1)) D T)).
+      { rewrite <- Hrun. rewrite <- HD at 2. rewrite <- decode_is_run. apply IH; [discriminate|].
+        rewrite decode_is_run, HD, Hrun. exact Hq. }
+      destruct (r_verdict R1) as [|e| |]; try contradiction.
+      * apply same_result_prepend. exact Hrec.
+      * destruct e; try contradiction. apply same_result_prepend. exact Hrec.
+    + (* a hard error in a fragment that is not the last: nothing more is fed *)
+      cbn [set_left r_quirk] in Hq.
+      assert (Hstop : decode_chunks_from hd d carry (f :: g :: more') = R1 ->
+                      same_result R1 (set_left R1 (r_left R1 ++ C))).
+      { intros _. unfold same_result, set_left. cbn [r_fields r_verdict r_dec]. auto. }
+      unfold resumable in Eres. rewrite Hq in Eres. cbn [qnone] in Eres. rewrite andb_true_r in Eres.
+      destruct (r_verdict R1) as [|e| |] eqn:Ev; try discriminate.
+      * destruct e; try discriminate; unfold same_result, set_left; cbn [r_fields r_verdict r_dec]; auto.
+      * unfold same_result, set_left; cbn [r_fields r_verdict r_dec]; auto.
+      * unfold same_result, set_left; cbn [r_fields r_verdict r_dec]; auto.
+Qed.
+
+(* MAIN THEOREM 4.  A header block delivered in any number of fragments, cut anywhere, decoded the
+   way framed_read.rs does it (keep what `take` left in the BytesMut, append the next payload,
+   call decode again after Ok or NeedMore; NeedMore on the last fragment is final), yields the
+   same headers, the same verdict (error class) and the same decoder state (dynamic table,
+   ceiling) as decoding the whole block at once -- PROVIDED the whole-block run does not hit
+   one of the two quirks ([r_quirk] = QNone):
+     QMisplacedUpdate  a size update after a header field (whole: InvalidMaxDynamicSize)
+     QEmptyName        a literal with an empty name (whole: NeedMore(UnexpectedEndOfStream))
+   For both quirks the fragmented run really differs: Examples chunking_differs_* below.
+   No hypothesis on the decoder state, the octets or [hd]. *)
+Theorem hpack_chunking hd d frags :
+  frags <> [] ->
+  r_quirk (decode hd d (concat frags)) = QNone ->
+  same_result (decode_chunks hd d frags) (decode hd d (concat frags)).
+Proof. intros Hne Hq. exact (chunks_from_whole hd frags d [] Hne Hq). Qed.
+
+(* the quirks in terms of the visible verdict *)
+Lemma run_quirk_verdict hd : forall n bs, (length bs <= n)%nat -> forall cr d,
+  match r_quirk (decode_run hd cr d bs) with
+  | QNone => True
+  | QMisplacedUpdate => r_verdict (decode_run hd cr d bs) = VErr InvalidMaxDynamicSize
+  | QEmptyName => r_verdict (decode_run hd cr d bs) = VErr (NeedMore UnexpectedEndOfStream)
+  end.
+Proof.
+  induction n as [|n IH]; intros bs Hl cr d.
+  - destruct bs; [exact I|cbn [length] in Hl; lia].
+  - destruct bs as [|ty t]; [exact I|]. rewrite run_cons.
+    pose proof (step_suffix hd cr d ty (ty :: t)) as Hs.
+    assert (Hq : match decode_step hd cr d ty (ty :: t) with
+                 | SErr e _ QMisplacedUpdate => e = InvalidMaxDynamicSize
+                 | SErr e _ QEmptyName => e = NeedMore UnexpectedEndOfStream
+                 | _ => True end).
+    { unfold decode_step. destruct (repr_load ty) as [[| | | |]|e]; try exact I.
+      - destruct (decode_int 7 (ty :: t)); [|exact I]. destruct (table_get (d_table d) v); exact I.
+      - assert (A : match decode_literal hd (d_table d) (ty :: t) true with
+                    | LErr e _ QMisplacedUpdate => False
+                    | LErr e _ QEmptyName => e = NeedMore UnexpectedEndOfStream | _ => True end).
+        { unfold decode_literal. destruct (decode_int 6 (ty :: t)); [|exact I]. destruct (v =? 0).
+          - destruct (try_decode_string hd rest) as [[nh name] r1|]; [|exact I].
+            destruct (try_decode_string hd r1) as [[vh value] r2|]; [|exact I].
+            destruct name as [|c r]; [cbn [header_new]; reflexivity|].
+            destruct (header_new (c :: r) value); exact I.
+          - destruct (table_get (d_table d) v); try exact I.
+            destruct (try_decode_string hd rest) as [[vh value] r1|]; [|exact I].
+            destruct (into_entry (fst f) value); exact I. }
+        destruct (decode_literal hd (d_table d) (ty :: t) true) as [f r|e l q|]; try exact I.
+        destruct q; [exact I|contradiction|exact A].
+      - assert (A : match decode_literal hd (d_table d) (ty :: t) false with
+                    | LErr e _ QMisplacedUpdate => False
+                    | LErr e _ QEmptyName => e = NeedMore UnexpectedEndOfStream | _ => True end).
+        { unfold decode_literal. destruct (decode_int 4 (ty :: t)); [|exact I]. destruct (v =? 0).
+          - destruct (try_decode_string hd rest) as [[nh name] r1|]; [|exact I].
+            destruct (try_decode_string hd r1) as [[vh value] r2|]; [|exact I].
+            destruct name as [|c r]; [cbn [header_new]; reflexivity|].
+            destruct (header_new (c :: r) value); exact I.
+          - destruct (table_get (d_table d) v); try exact I.
+            destruct (try_decode_string hd rest) as [[vh value] r1|]; [|exact I].
+            destruct (into_entry (fst f) value); exact I. }
+        destruct (decode_literal hd (d_table d) (ty :: t) false) as [f r|e l q|]; try exact I.
+        destruct q; [exact I|contradiction|exact A].
+      - assert (A : match decode_literal hd (d_table d) (ty :: t) false with
+                    | LErr e _ QMisplacedUpdate => False
+                    | LErr e _ QEmptyName => e = NeedMore UnexpectedEndOfStream | _ => True end).
+        { unfold decode_literal. destruct (decode_int 4 (ty :: t)); [|exact I]. destruct (v =? 0).
+          - destruct (try_decode_string hd rest) as [[nh name] r1|]; [|exact I].
+            destruct (try_decode_string hd r1) as [[vh value] r2|]; [|exact I].
+            destruct name as [|c r]; [cbn [header_new]; reflexivity|].
+            destruct (header_new (c :: r) value); exact I.
+          - destruct (table_get (d_table d) v); try exact I.
+            destruct (try_decode_string hd rest) as [[vh value] r1|]; [|exact I].
+            destruct (into_entry (fst f) value); exact I. }
+        destruct (decode_literal hd (d_table d) (ty :: t) false) as [f r|e l q|]; try exact I.
+        destruct q; [exact I|contradiction|exact A].
+      - destruct (negb cr); [reflexivity|]. destruct (decode_int 5 (ty :: t)); [|exact I].
+        destruct (d_last_max d <? v); [exact I|].
+        destruct (table_set_max_size (d_table d) v); exact I. }
+    destruct (decode_step hd cr d ty (ty :: t)) as [f d' rest|d' rest|e l q|]; try exact I.
+    + destruct Hs as (pre & E & Hne). pose proof (suffix_shorter pre rest Hne) as Hlr.
+      rewrite <- E in Hlr. cbn [length] in Hl, Hlr.
+      cbn [prepend r_quirk r_verdict]. apply (IH rest ltac:(lia) false d').
+    + destruct Hs as (pre & E & Hne). pose proof (suffix_shorter pre rest Hne) as Hlr.
+      rewrite <- E in Hlr. cbn [length] in Hl, Hlr.
+      apply (IH rest ltac:(lia) cr d').
+    + cbn [r_quirk r_verdict]. destruct q; [exact I|rewrite Hq; reflexivity|rewrite Hq; reflexivity].
+Qed.
+
+(* In particular: every block that decodes successfully as a whole decodes identically in every
+   fragmentation, and so does every block that fails with any error class other than the two
+   ambiguous ones. *)
+Corollary hpack_chunking_by_verdict hd d frags :
+  frags <> [] ->
+  r_verdict (decode hd d (concat frags)) <> VErr InvalidMaxDynamicSize ->
+  r_verdict (decode hd d (concat frags)) <> VErr (NeedMore UnexpectedEndOfStream) ->
+  same_result (decode_chunks hd d frags) (decode hd d (concat frags)).
+Proof.
+  intros Hne H1 H2. apply hpack_chunking; [exact Hne|].
+  pose proof (run_quirk_verdict hd (length (concat frags)) (concat frags) (le_n _) true (take_queued d)) as Hq.
+  rewrite <- decode_is_run in Hq.
+  destruct (r_quirk (decode hd d (concat frags))); [reflexivity|contradiction|contradiction].
+Qed.
+
+Corollary hpack_chunking_ok hd d frags :
+  frags <> [] ->
+  r_verdict (decode hd d (concat frags)) = VOk ->
+  same_result (decode_chunks hd d frags) (decode hd d (concat frags)).
+Proof.
+  intros Hne Hv. apply hpack_chunking_by_verdict; [exact Hne| |]; rewrite Hv; discriminate.
+Qed.
+
+Example hpack_chunking_example hd :
+  (* RFC 7541 C.2.1 cut in three places, one of them inside the name string *)
+  let frags := [[64; 10; 99; 117]; [115; 116; 111; 109; 45; 107; 101; 121; 13; 99]; [];
+                [117; 115; 116; 111; 109; 45; 104; 101; 97; 100; 101; 114]] in
+  frags <> [] /\ r_quirk (decode hd (decoder_new 4096) (concat frags)) = QNone /\
+  r_fields (decode_chunks hd (decoder_new 4096) frags) = [(bstr "custom-key", bstr "custom-header")].
+Proof. cbv zeta. split; [discriminate|]. vm_compute. auto. Qed.
